@@ -12,8 +12,57 @@ def ob(module, *names):
     return [{"module": module, "name": n} for n in names]
 
 
+NOT_CLAIMED = {}
+
+VALIDATOR_NOTE = ("trusted: Lean kernel (axioms propext, Quot.sound, Classical.choice only); the hand-written model of validator/{lib,capability,authorization}.go; "
+                  "ideal signatures (ground truth from the harness, which really signs and tampers); the correspondence is sampled (thousands of generated worlds per run, "
+                  "stratified by defect kind) - a change to the code that agrees with the model on every generated world is not seen")
+
+VALIDATOR_TRUSTED = [
+    "hand-written Lean model of validator/lib.go, capability.go, authorization.go (Model/Validator.lean); tie = model and implementation run on the same generated worlds (real keys, real tokens through the public API) and compared on the property's hard observables",
+    "signatures are ideal in the model: ground truth (which key signed, whether a field was altered after signing) is supplied by the harness, which really signs / tampers",
+    "caller-supplied functions (can-issue policy, revocation checker, resolvers, Derives, schema readers) are arbitrary in the theorems and specific named rules in the correspondence",
+]
+
+WORLD_RULE = ("worlds = principals (Ed25519, RSA, did:web, did:mailto) + a main delegation chain of random depth with multi-capability tokens, "
+              "wildcard abilities/resources, inline or link-only proofs (+resolver), optional session attestations, then defects by kind (round robin over the "
+              "property's list, 25%% get a second one). non-trivial: the world has at least one delegation besides the invocation. distinct: hash of the concrete world")
+
 PROPS = {
+    "C01": {
+        "manifest": {"text": "Theorem C01_sound (all worlds, all DAG shapes, all policies, any Derives, any fuel): whenever the model's Access returns an authorization, it is rooted in the invocation and is a complete valid chain (ClaimOk: every token in window and authentic - issuer's key / authority key / valid session / resolved key -, every proof cited, available and delegated to the citing issuer, ability/resource resolved by the C16-proved pattern functions, Derives accepted, root entitled by the can-issue policy). The model is tied to validator.Access by running both on generated worlds built from real keys and tokens; every authorization the implementation returns is re-checked by an executable chain checker against ground-truth signatures.", "design_ref": '5.1', "note": VALIDATOR_NOTE},
+        "obligations": ob("UcantoModel.Props.C01", "V.sound_all", "V.C01_sound", "V.C01_no_chain", "V.verifySig_ok"),
+        "rule": WORLD_RULE, "trusted_base": VALIDATOR_TRUSTED,
+        "assumptions": ["hard observable for C01: an authorization returned by the implementation must also be returned by the model (refusals are C06's subject) and its spine must pass the executable chain checker"],
+    },
+    "C02": {
+        "manifest": {"text": "Theorems C02_binds / resolveCap_nb / overlay_get_set / overlay_get_unset: at every step of every returned authorization the capability shown to Derives as 'delegated' carries the overlay of the caveats written in that delegation over the claimed ones (set fields shown, unset inherited) and Derives accepted it; C02_attest: a re-delegated ucan/attest{proof:X} can only attest X. Correspondence on worlds where 60% of delegations carry restricting caveats under three derivation rules; the implementation's returned capabilities (incl. caveats) at each level are re-derived by the chain checker.", "design_ref": '5.2', "note": VALIDATOR_NOTE},
+        "obligations": ob("UcantoModel.Props.C02", "V.C02_binds", "V.rest_binds", "V.resolveCap_nb", "V.overlay_get_set", "V.overlay_get_unset", "V.attest_chain_proof", "V.C02_attest"),
+        "rule": WORLD_RULE + "; 60% of delegations carry restricting caveats, derivation rules default/eq/le", "trusted_base": VALIDATOR_TRUSTED,
+    },
+    "C03": {
+        "obligations": ob("UcantoModel.Props.C03", "V.isExpired_spec", "V.isTooEarly_spec", "V.C03_noexp", "V.C03_inside", "V.C03_no_spurious", "V.C03_window", "V.C03_attestation_window"),
+        "rule": "", "trusted_base": VALIDATOR_TRUSTED,
+    },
+    "C04": {
+        "manifest": {"text": "Theorems C04_accept / C04_attestation_shape / C04_other_link: a token whose issuer is neither did:key nor the authority validates only through a sibling attestation (not itself, first capability ucan/attest, `with` the authority DID, proof = exactly this token's link, in window, own chain valid, not revoked) or, when the session claim failed without failed proof chains, through the resolved key's signature. Correspondence (both directions) on worlds that all contain a non-key issuer with ten attestation variants and key-resolver variants.", "design_ref": '5.4', "note": VALIDATOR_NOTE},
+        "obligations": ob("UcantoModel.Props.C04", "V.C04_accept", "V.C04_attestation_shape", "V.C04_other_link", "V.parseCap_attDesc"),
+        "rule": WORLD_RULE + "; every world has a non-key issuer in the chain with one of ten attestation variants", "trusted_base": VALIDATOR_TRUSTED,
+    },
+    "C05": {
+        "manifest": {"text": "Theorems C05_checked (an authorization is returned only if the checker accepted that same authorization), C05_exposes (the links reachable through Proofs() are exactly the spine), C05_none_revoked, C05_all_rejected. Correspondence: the harness's checker logs every authorization it is shown (walking Proofs() recursively) and rejects revoked ids; the oracle demands that the last accepted authorization is the returned one link for link and that an all-rejected search reports the revocation.", "design_ref": '5.5', "note": VALIDATOR_NOTE},
+        "obligations": ob("UcantoModel.Props.C05", "V.C05_checked", "V.C05_exposes", "V.C05_none_revoked", "V.C05_all_rejected"),
+        "rule": WORLD_RULE + "; 3/7 of the worlds revoke a random delegation", "trusted_base": VALIDATOR_TRUSTED,
+    },
+    "C06": {
+        "obligations": [],
+        "rule": WORLD_RULE, "trusted_base": VALIDATOR_TRUSTED,
+    },
     "C16": {
+        "manifest": {"text": "Lean theorems over all byte strings: resolveAbility/resolveResource/defaultDerives of the model equal the property's three grant relations (resolveAbility_spec, resolveResource_spec, defaultDerives_spec, plus no_partial_segment / only_three_forms); the model is tied to the Go functions by exhaustive enumeration of all string pairs over {a,b,A,/,*,:} up to total length 7 (quick) / 8 (thorough) plus random realistic strings, so any divergence of the code from the proved specification inside that space is a concrete failing pair.",
+                     "design_ref": "5.16",
+                     "note": "trusted: Lean kernel (axioms propext, Quot.sound, Classical.choice only); hand-written model of three 5-line functions; the correspondence is exhaustive to the length bound and sampled beyond it.",
+                     "technique": "Lean 4 theorem (all inputs) + exhaustive model/implementation correspondence"},
         "obligations": ob("UcantoModel.Props.C16",
                           "C16.resolveAbility_spec", "C16.resolveAbility_range", "C16.resolveAbility_empty",
                           "C16.resolveResource_spec", "C16.resolveResource_range", "C16.defaultDerives_spec",
